@@ -111,6 +111,43 @@ func foScanReuse(c *core.Ctx, r *rand.Rand) {
 			encoding.ReleaseFixedOffsetDecoder(dec)
 		}
 	}()
+	// a SECOND decoder object with its own table, asked in between (state shared between objects — a package-level
+	// cache, a cursor kept outside the receiver — shows as a wrong answer of either one)
+	oh := foScanH + 1
+	var other *encoding.FixedOffsetDecoder
+	oOffs, oData := foScanTable(r)
+	{
+		oparts := make([]string, len(oOffs))
+		for i, v := range oOffs {
+			oparts[i] = fmt.Sprint(v)
+		}
+		guard(c, fmt.Sprintf("fe from %d %s", h, strings.Join(oparts, " ")), func() string { enc.FromValues(append([]int(nil), oOffs...)); return "ok" })
+		var otable []byte
+		guard(c, fmt.Sprintf("fe marshal %d", h), func() string { otable = cp(enc.MarshalBinary()); return hx(otable) })
+		guard(c, fmt.Sprintf("fd new %d", oh), func() string { other = encoding.NewFixedOffsetDecoder(); return "ok" })
+		if out := foUnm(c, oh, other, otable); !strings.HasPrefix(out, "ok") {
+			c.Fail(keyScan, fmt.Sprintf("Unmarshal of the marshalled table %v on a new decoder: %s", oOffs, out))
+			return
+		}
+	}
+	askOther := func(why string) {
+		j := r.Intn(len(oOffs))
+		hi := len(oData)
+		if j+1 < len(oOffs) {
+			hi = oOffs[j+1]
+		}
+		guard(c, fmt.Sprintf("fd blk %d %d %s", oh, j, hx(oData)), func() string {
+			b, err := other.GetBlock(j, oData)
+			if err != nil {
+				c.Fail(keyScan, fmt.Sprintf("second decoder (table %v, never re-armed) asked %s: GetBlock(%d, %d bytes) = %v, want data[%d:%d]", oOffs, why, j, len(oData), err, oOffs[j], hi))
+				return blkErr(err)
+			}
+			if !bytes.Equal(b, oData[oOffs[j]:hi]) {
+				c.Fail(keyScan, fmt.Sprintf("second decoder (table %v, never re-armed) asked %s: GetBlock(%d, %d bytes) = %d bytes %x, want data[%d:%d] = %x", oOffs, why, j, len(oData), len(b), b, oOffs[j], hi, oData[oOffs[j]:hi]))
+			}
+			return "ok " + hx(b)
+		})
+	}
 	tables := 2 + r.Intn(4)
 	last, prevN := -1, 0 // last index asked of the previous table
 	prevWhat := ""
@@ -172,6 +209,10 @@ func foScanReuse(c *core.Ctx, r *rand.Rand) {
 		// a second data block of another length for the same table (the last block ends with the data block)
 		data2 := append(cp(data), make([]byte, 1+r.Intn(4))...)
 		for qi, i := range idxs {
+			if r.Intn(3) == 0 {
+				c.Branch("fo-scan-second-decoder-in-between")
+				askOther(fmt.Sprintf("between the questions to the first decoder (table %v, %s)", offs, pat))
+			}
 			blk := data
 			if r.Intn(5) == 0 {
 				blk = data2
@@ -204,6 +245,8 @@ func foScanReuse(c *core.Ctx, r *rand.Rand) {
 		c.NonTrivial()
 		last, prevN, prevWhat = idxs[len(idxs)-1], n, pat
 	}
+	askOther("after all tables of the first decoder")
+	c.Op(fmt.Sprintf("fd rel %d", oh), "ok")
 	c.Op(fmt.Sprintf("fd rel %d", h), "ok")
 	encoding.ReleaseFixedOffsetDecoder(dec)
 	dec = nil
